@@ -13,6 +13,7 @@ mod prng;
 mod refdata;
 mod scenario;
 mod shrink;
+mod simclock;
 
 use exec::{Counters, HarnessError, PoolCtx, RealDisk, Sim, Violation, C, COUNTER_NAMES, OFFCLASS_NAMES};
 use image::Image;
@@ -585,6 +586,10 @@ fn cmd_run(args: &Args) -> i32 {
     let mut combined: u64 = 0;
     let mut bypass = false;
     let clock_ok = exec::clock_seam_works();
+    let mono_ok = simclock::works();
+    if !mono_ok {
+        println!("NOTE monotonic-clock-seam-inactive: Instant does not see simulated time here; stalled reads pass no time");
+    }
     if !clock_ok {
         println!("NOTE clock-seam-bypassed: Epoch::now() does not read the simulated clock; runs see the real one");
     }
@@ -1049,7 +1054,8 @@ fn cmd_run(args: &Args) -> i32 {
             "seam_bypassed": bypass,
             "clock_seam_works": clock_ok,
             "runs_per_hour": if wall > 0.0 { (executed as f64 / wall * 3600.0) as u64 } else { 0 },
-            "simulated_time": "not applicable: no timers, sleeps or deadlines in the code under simulation; the step budget is counted in read calls",
+            "monotonic_clock_seam_works": mono_ok,
+            "simulated_time": format!("{} s of simulated elapsed time passed inside stalled reads (counter stalled_simulated_seconds; the monotonic clock behind std::time::Instant and the wall clock behind Epoch::now are both simulated for the code under test and advance only through stalls and SetClock operations); the unchanged tree has no timer, sleep or deadline and reads neither clock (counter monotonic_clock_reads_by_loader), so its step budget is counted in read calls", out_counters.get(C::stalled_simulated_seconds)),
             "counters": Value::Object(cmap),
             "hard_faults_fired_by_offset_class": Value::Object(by_class),
             "hard_faults_fired_by_kind": Value::Object(by_kind),
